@@ -94,6 +94,8 @@ def comparisons(F, f):
         if sa > sb:
             sa, sb = sb, sa
             part = _flip(part)
+        elif sa == sb and core.earlier_operand(f, a, b) > 0:
+            part = _flip(part)  # same roots: "earlier value || later value
         out.append(('%s || %s' % (sa, sb), part, ln))
     for bi, sw in core.all_switches(F, f).items():
         if sw is None:
